@@ -115,6 +115,19 @@ func (in *vfGWInst) Enabled() []string {
 			ok = !in.last.Blacklst[f[1]]
 		case "lpub":
 			ok = !in.lpubDone[f[2]] // labels of local publications are unique
+		case "blimpl":
+			ok = !in.last.Blacklst[f[1]]
+		case "hold":
+			ok = !g.conn[f[1]] && !g.held[f[1]]
+		case "release", "failstream":
+			ok = g.held[f[1]]
+		case "vrel":
+			ok = false
+			for _, p := range g.pendingVals() {
+				if p == f[1]+"|"+f[2] {
+					ok = true
+				}
+			}
 		}
 		if ok {
 			out = append(out, ev)
